@@ -146,6 +146,7 @@ type model struct {
 	usedOth  map[string]bool
 	usedCID  map[uint64]bool
 	usedFH   map[string]bool
+	otherFlights int // requests in flight besides the one being evaluated
 	dirMoves int // number of successful directory mutations (create/remove)
 
 	ev map[string]int // event labels
